@@ -85,7 +85,7 @@ def driver_targets():
 
 
 SRC_PARTS = {"C01": ["gp-memb", "gp-mb", "gp-bp", "gp-qsbr"], "C10": ["wfcq"], "C11": ["wfs", "lfs"], "C12": ["lfq"], "C13": ["defer", "futex-defer"],
-             "C02": ["futex-gp"], "C14": ["poll"], "C15": ["reg"], "C05": ["lfht"], "C07": ["lfht"], "C03": ["futex-callrcu"], "C04": ["futex-callrcu"], "C09": ["futex-wq"], "C16": ["futex-wq", "fork"]}
+             "C02": ["futex-gp"], "C14": ["poll"], "C15": ["reg"], "C05": ["lfht"], "C06": ["lfht"], "C07": ["lfht"], "C03": ["futex-callrcu"], "C04": ["futex-callrcu"], "C09": ["futex-wq"], "C16": ["futex-wq", "fork"]}
 
 
 def main():
